@@ -362,15 +362,26 @@ func c07Property(t *rapid.T) {
 	// (what it writes may differ from the stream entry point: it may complete the document from the path)
 	{
 		ff := rapid.SampledFrom(registeredOutputFormats()).Draw(t, "fileformat")
-		path := filepath.Join(c06TempDir(), "c07-out.json")
-		_ = os.Remove(path)
+		// (a directory of its own: "produces output" is read as "some non-empty file appears in it" - under which name
+		// exactly is the writer's business)
+		dir := filepath.Join(c06TempDir(), "c07-file-out")
+		_ = os.RemoveAll(dir)
+		_ = os.MkdirAll(dir, 0o755)
+		path := filepath.Join(dir, "c07-out.json")
 		var ferr error
 		withWatchdog(t, 15*time.Second, "WriteFileWithOptions("+string(ff)+")", func() {
 			ferr = w.WriteFileWithOptions(a.build(), path, &writer.Options{Format: ff, RenderOptions: ro})
 		})
 		if ferr == nil {
-			if data, rerr := os.ReadFile(path); rerr != nil || len(data) == 0 {
-				t.Fatalf("WriteFileWithOptions(%s) returned no error but left no output at the path (read error %v, %d bytes)\n document: %s", ff, rerr, len(data), describeWild(a))
+			written := int64(0)
+			_ = filepath.Walk(dir, func(_ string, info os.FileInfo, err error) error {
+				if err == nil && info.Mode().IsRegular() {
+					written += info.Size()
+				}
+				return nil
+			})
+			if written == 0 {
+				t.Fatalf("WriteFileWithOptions(%s) returned no error but left no output in the directory of the path\n document: %s", ff, describeWild(a))
 			}
 			hx.Class("written_to_file")
 		}
